@@ -134,6 +134,27 @@ def via_history(cfg, rng):
     other oracles exposes stale caches and in-place writes that no freshly constructed object shows."""
     qsc = import_qsc()
     nh = len(cfg['rc'])
+    if rng.random() < 0.3:
+        # variant B: the same input with ONE more harmonic that only carries rs / zc (or only rc / zs), discarded again by change_nfourier
+        c0 = dict(cfg)
+        which = ('rs', 'zc') if rng.random() < 0.6 else ('rc', 'zs')
+        for k in ('rc', 'zs', 'rs', 'zc'):
+            base = list(cfg.get(k, [0.0] * nh))
+            c0[k] = base + [abs(cfg['rc'][-1]) * 0.05 if k in which else 0.0]
+        h = WarnCatcher(); lg = logging.getLogger('qsc'); lg.addHandler(h); old = lg.level; lg.setLevel(logging.WARNING)
+        try:
+            with warnings.catch_warnings(record=True):
+                warnings.simplefilter('always')
+                with np.errstate(all='ignore'):
+                    q = qsc.Qsc(**c0)
+                    h.records.clear()
+                    q.change_nfourier(nh)
+                    if cfg.get('order') == 'r3' and rng.random() < 0.5:
+                        q.calculate_shear()
+            msgs = list(h.records)
+        finally:
+            lg.removeHandler(h); lg.setLevel(old)
+        return q, msgs
     sc = 1.0 + rnd(rng, 0.05, 0.25) * (1 if rng.random() < 0.5 else -1)
     c0 = dict(cfg)
     for k in ('rc', 'zs', 'rs', 'zc'):
